@@ -634,6 +634,10 @@ def check_decoder_tables(ctx, F, rule, dec, bits):
             raise U(rule, f"decoder loop does not walk a constant table directly: {P.show(src)[:60]} via {chain}", dec)
         tv = F.const_value(s_[1])
         plain = bool(tv) and "array" in tv and all(isinstance(e, str) for e in tv["array"])
+        mi_, vi_ = 0, 1        # which component of an entry is the mask / the variant
+        if not plain and tv and "array" in tv and tv["array"] and all(isinstance(e, (list, tuple)) and len(e) == 2 and isinstance(e[0], str) and isinstance(e[1], int) and not isinstance(e[1], bool) for e in tv["array"]):
+            mi_, vi_ = 1, 0    # (variant, mask) pairs
+            tv = dict(tv, array=[[e[1], e[0]] for e in tv["array"]])
         if not plain and (not tv or "array" not in tv or not all(isinstance(e, (list, tuple)) and len(e) == 2 and isinstance(e[0], int) and isinstance(e[1], str) for e in tv["array"])):
             raise U(rule, f"{s_[1]} is not a constant table of (mask, variant) pairs or of variants", dec)
         item = P.strip(lp.item_term)
@@ -662,7 +666,7 @@ def check_decoder_tables(ctx, F, rule, dec, bits):
             def unref(u):
                 u = P.strip(u)
                 return ("field", unref(u[1]), u[2]) if u[0] == "field" else u
-            mask_t = ("field", item, 0)
+            mask_t = ("field", item, mi_)
             is_val = [P.strip(u) == ("param", 1) for u in (a_, b_)] if a_ is not None else []
             if plain and a_ is not None and sorted(is_val) == [False, True]:
                 # a table of variants, the mask computed from the entry (`SPADE_MASK << code(suit)`): folded per entry with the
@@ -740,7 +744,7 @@ def check_decoder_tables(ctx, F, rule, dec, bits):
         if hit_edge is None:
             raise U(rule, f"no match test in the scan of {s_[1]}", dec)
         scans[lp.header] = (lp, s_[1], [[folded[v_], v_] for v_ in tv["array"]] if plain else tv["array"], item)
-        scans[lp.header] += (plain,)
+        scans[lp.header] += (plain, vi_)
     # the card is built from the matched entries' variants
     ret = P.strip(pr.local(0), calls=False)
     ops = None
@@ -760,7 +764,7 @@ def check_decoder_tables(ctx, F, rule, dec, bits):
         def unref2(u):
             u = P.strip(u)
             return ("field", unref2(u[1]), u[2]) if u[0] == "field" else u
-        srcs = [h for h, (lp, nm, arr, item, plain_) in scans.items() if unref2(o) == (item if plain_ else ("field", item, 1))]
+        srcs = [h for h, (lp, nm, arr, item, plain_, vi2_) in scans.items() if unref2(o) == (item if plain_ else ("field", item, vi2_))]
         if len(srcs) != 1:
             raise U(rule, f"card field {k} is not the variant of the entry matched by one of the scans: {P.show(o)[:80]}", dec)
         which[fields[k]["ty"]] = scans[srcs[0]]
